@@ -174,15 +174,16 @@ func init() {
 			for _, m := range out.Misses {
 				rep.Violations = append(rep.Violations, Violation{What: "reply differs from the specification: " + m.Verdict, Signature: "spec-mismatch:c16", Replay: map[string]interface{}{"scenario": describeScenario(sc), "step": m.Step}})
 			}
+			// the property's own predicate on what the real handler sent, whether or not the model agrees
+			budgetOracle(rep, sc, out.Obs, distinct)
 			if out.Div != nil {
 				rep.Divergences = append(rep.Divergences, out.Div)
-				if len(rep.Divergences) > 3 {
+				if enoughDivergences(rep, 3) {
 					break
 				}
 				continue
 			}
 			rep.Validated++
-			budgetOracle(rep, sc, out.Obs, distinct)
 		}
 		rep.Distinct = len(distinct)
 		rep.Exhaustive = true
